@@ -18,7 +18,7 @@ PROP = dict(
         "Comdex.C10.close_proceeds_distributed", "Comdex.C10.lend_close_split", "Comdex.C10.close_custody_accounted",
         "Comdex.C10.close_distributes_all_partial", "Comdex.C10.close_distributes_all_counterexample",
         "Comdex.C10.v1_bidders_pay_le_target_and_receive_le_collateral", "Comdex.C10.v1_custody_exact",
-        "Comdex.C10.v1_bid_moves_and_close_distributes", "Comdex.C10.v1_bid_at_posted_price",
+        "Comdex.C10.v1_bid_moves_and_close_distributes", "Comdex.C10.v1_bid_at_posted_price", "Comdex.C10.v1_esm_winddown_empties_custody",
         "Comdex.C10.l1_bidders_pay_le_target_and_receive_le_seized", "Comdex.C10.l1_close_custody_partial",
         "Comdex.C10.l1_bid_moves_and_close_distributes", "Comdex.C10.l1_close_custody_counterexample",
     ],
